@@ -80,9 +80,14 @@ def expected_tokens(dt, L):
 
 @st.composite
 def value(draw, named_only=False):
-    y = draw(st.one_of(st.integers(1000, 9999), st.sampled_from([1000, 1999, 2000, 2068, 2069, 9999])))
-    m = draw(st.integers(1, 12))
-    d = draw(st.integers(1, calendar.monthrange(y, m)[1]))
+    y = draw(st.one_of(st.integers(1000, 9999), st.sampled_from([1000, 1999, 2000, 2068, 2069, 9999, 2024, 2023])))
+    if draw(st.integers(0, 3)) == 0:
+        # calendar boundaries: first/last day of the year, leap day and its neighbours, month ends
+        m, d = draw(st.sampled_from([(1, 1), (12, 31), (12, 30), (2, 28), (2, 29), (3, 1), (1, 31), (4, 30), (12, 1)]))
+        d = min(d, calendar.monthrange(y, m)[1])
+    else:
+        m = draw(st.integers(1, 12))
+        d = draw(st.integers(1, calendar.monthrange(y, m)[1]))
     f = [y, m, d, draw(st.sampled_from([0, 11, 12, 13, 23]) | st.integers(0, 23)), draw(st.integers(0, 59)), draw(st.integers(0, 59)),
          draw(st.sampled_from([0, 5, 999999, 100000, 12345]) | st.integers(0, 999999))]
     if named_only or draw(st.booleans()):
@@ -162,7 +167,8 @@ class Tokens(Sub):
         return nt, loc
 
 
-DATE_PARTS = ["YYYY-MM-DD", "DD/MM/YYYY", "YYYY MM DD", "YYYY-DDDD", "D.M.YYYY", "YYYY MMMM D", "ddd, DD MMM YYYY", "dddd D MMMM YYYY", "Do MMMM YYYY", "YYYY[T]MM[T]DD", "YY-MM-DD"]
+DATE_PARTS = ["YYYY-MM-DD", "DD/MM/YYYY", "YYYY MM DD", "YYYY-DDDD", "D.M.YYYY", "YYYY MMMM D", "ddd, DD MMM YYYY", "dddd D MMMM YYYY", "Do MMMM YYYY", "YYYY[T]MM[T]DD", "YY-MM-DD",
+              "[Le] D.M.YYYY", "[day] DDDD [of the year] YYYY", "YYYY-MM-DD [(ISO)]", "[YYYY:] YYYY [MM:] MM [DD:] DD"]
 TIME_PARTS = ["HH:mm:ss.SSSSSS", "H:m:s.SSSSSS", "hh:mm:ss.SSSSSS A", "h:mm:ss.SSSSSS A", "HH.mm.ss SSSSSS"]
 ZONE_PARTS = ["Z", "ZZ", "z"]
 
@@ -176,7 +182,7 @@ class RoundTrip(Sub):
 
     def strategy(self, ctx):
         return st.fixed_dictionaries({"v": value(), "date": st.sampled_from(DATE_PARTS), "time": st.sampled_from(TIME_PARTS), "zone": st.sampled_from(ZONE_PARTS),
-                                      "sep": st.sampled_from([" ", "T", " @ ", ", "]), "locale": st.sampled_from(["en", "en", "fr", "de", "ru", "pt_br", "ja"])})
+                                      "sep": st.sampled_from([" ", "T", " @ ", ", ", " [at] ", " [o'clock: Hh] ", "\\a\\t "]), "locale": st.sampled_from(["en", "en", "fr", "de", "ru", "pt_br", "ja"])})
 
     def check(self, case, ctx):
         dt = build(case["v"])
@@ -199,7 +205,7 @@ class RoundTrip(Sub):
         if zone_tok == "z":
             req(r.timezone_name == dt.timezone_name, "from_format with 'z' does not restore the zone name", got=r.timezone_name, expected=dt.timezone_name)
         # a string that does not match the format must be rejected
-        for bad in (s.replace(case["sep"], "#", 1) if case["sep"].strip() or case["sep"] == "T" else s + "x", s[:-1] if zone_tok != "z" else s + "/", "x" + s):
+        for bad in (s + "x", s[:-1] if zone_tok != "z" else s + "/", "x" + s):
             if bad == s:
                 continue
             try:
